@@ -138,7 +138,7 @@ pub fn out_action(seed: u64, cycle: u64, port: u32, pw: u32, four_state: bool, a
     }
 }
 
-/// Value returned by method `gen(w, k)`.
+/// Value returned by method `mk(w, k)`.
 pub fn gen_value(seed: u64, k: u64, w: u32) -> Vec<u64> {
     pattern(seed ^ 0x9393, k, w, h4(seed, k, w as u64, 5))
 }
@@ -314,7 +314,7 @@ impl Component for Probe {
                 _ => bail!("echo needs one bits argument"),
             },
             "cat" => Ok(Value::unit()),
-            "gen" => {
+            "mk" => {
                 let w = (args.first().map(|v| v.as_u64()).transpose()?.unwrap_or(1) as u32).max(1);
                 let k = args.get(1).map(|v| v.as_u64()).transpose()?.unwrap_or(0);
                 let words = gen_value(self.seed, k, w);
